@@ -211,6 +211,28 @@ def step (d : DState) (tok : List String) : DState × List String :=
       if d.pols.any (fun e => e.1 == n) then ({ d with cur := some n }, [])
       else ({ d with cur := some n, pols := d.pols ++ [(n, { cfg := cfg })] }, [])
   | "echo" :: rest => (d, ["@" ++ rest.headD ""])
+  | "thunk-expect" :: sh :: _ =>
+    -- what a generated argument-passing program must print for this inheritance shape
+    match shapeOfName sh with
+    | none => (d, ["!harness unknown shape"])
+    | some s =>
+      let arg := fun (k : String) => s!"arg kind={k} same=1 most=1 value=1 extra=1"
+      (d, [s!"cast dynamic={if requiresDynamicCast s then 1 else 0}",
+           arg "ref", arg "ref@1", arg "cref", arg "rref", arg "ptr", arg "two", arg "shared",
+           "own kind=shared same_owner=1 use_after=1", arg "cshared@1", "own kind=cshared same_owner=1 use_after=1",
+           arg "vsptr", "own kind=vsptr same_owner=1 use_after=1", arg "cvsptr", "own kind=cvsptr same_owner=1",
+           arg "vsptr<-lvalue", arg "vsptr<-const", arg "vsptr<-rvalue", arg "vsptr<-derived",
+           "arg kind=make_virtual_shared same=1 get=1",
+           arg "vptr", arg "vptr@1", arg "vptr-copy", arg "vptr-final->base", arg "vptr-exact->base",
+           "get kind=vptr get=1 deref=1 arrow=1",
+           s!"nv cat=value-prvalue got=1 copies={copiesOf .value .prvalue} moves_le1=1",
+           s!"nv cat=value-xvalue got=1 copies={copiesOf .value .xvalue} moves_le1=1 src_moved=1",
+           s!"nv cat=value-lvalue got=1 copies={copiesOf .value .lvalue} src_intact=1",
+           s!"nv cat=lref same=1 copies={copiesOf .lref .lvalue} moves=0 written=1",
+           s!"nv cat=rref same=1 copies={copiesOf .rref .xvalue} moves=0 intact=1",
+           "nv cat=moveonly got=1 moves_le1=1",
+           "ret cat=value got=1 copies=0 moves=0",
+           "ret cat=ref same=1"])
   | "use-defs" :: nl :: nr :: holes =>
     -- use_definitions over product<types<M>, L0..L(nl-1), R0..R(nr-1)> with holes i:j
     let nl := nl.toNat?.getD 0
